@@ -90,6 +90,19 @@ fn family(name: &str, n: usize) -> String {
             d.push_str(&format!("]><r>&e{};</r>", n));
             d
         }
+        "entity-chain-in-attribute" | "entity-chain-in-attlist-default" | "entity-chain-in-entity-value" => {
+            // the same doubling chain, referenced where the reference is checked but not included as content
+            let mut d = String::from("<!DOCTYPE r [<!ENTITY e0 \"\">");
+            for i in 1..=n {
+                d.push_str(&format!("<!ENTITY e{} \"&e{};&e{};\">", i, i - 1, i - 1));
+            }
+            match name {
+                "entity-chain-in-attribute" => d.push_str(&format!("]><r a=\"&e{};\"/>", n)),
+                "entity-chain-in-attlist-default" => d.push_str(&format!("<!ATTLIST r a CDATA \"&e{};\">]><r/>", n)),
+                _ => d.push_str(&format!("<!ENTITY top \"&e{};\">]><r>&top;</r>", n)),
+            }
+            d
+        }
         "entity-cycle" => {
             let mut d = String::from("<!DOCTYPE r [");
             for i in 0..n {
@@ -123,6 +136,9 @@ const FAMILIES: &[(&str, &[usize])] = &[
     ("nested-choice", &[2, 6, 10, 14, 18, 22, 26, 30]),
     ("nested-choice-seq", &[2, 6, 10, 14, 18, 22]),
     ("entity-chain", &[2, 6, 10, 14, 18, 22, 26, 30, 40, 60]),
+    ("entity-chain-in-attribute", &[2, 10, 18, 26, 34, 48]),
+    ("entity-chain-in-attlist-default", &[2, 10, 18, 26, 34, 48]),
+    ("entity-chain-in-entity-value", &[2, 10, 18, 26, 34, 48]),
     ("entity-cycle", &[1, 2, 3, 10, 200]),
     ("empty-comments-in-subset", &[10, 1000, 20000]),
     ("many-pis", &[10, 5000]),
